@@ -1718,7 +1718,7 @@ func walBatchAtomicityGroup(c *Ctx, rule string) {
 // before a durable WAL record can point into it.
 func vlogSegmentKnownGroup(c *Ctx, rule string) {
 	c.Rule(rule, "a value-log segment is recorded in the manifest before any WAL record that points into it can become durable: between valueLog.write (which may rotate to a new segment) and applyRequests' WAL append, the commit path logs the new head/segment (LogValueLogHead / LogValueLogUpdate) whenever the file id changed; otherwise reconcileManifest's removal of segments above the highest known fid deletes referenced data")
-	cw := c.Fn("", "DB.commitWorker")
+	cw := commitWorkerBody(c)
 	vw := c.Fn("", "valueLog.write")
 	if cw == nil || vw == nil {
 		return
@@ -1741,7 +1741,7 @@ func vlogSegmentKnownGroup(c *Ctx, rule string) {
 			}
 		}
 	}
-	c.Decide(inWrite || between, rule, key(cw, "segment-logged-before-wal-append"), cw.Pos(), len(ws)+len(as)+1, "a rotated-to segment is in the manifest before the batch's WAL records", "the manifest learns a new value-log segment only in updateHead, after writeToLSM appended (and possibly flushed) WAL records that point into it: a crash in between leaves durable pointers into a segment that reconcileManifest deletes on reopen (key present, value unreadable)")
+	c.Decide(inWrite || between, rule, key(c.Fn("", "DB.commitWorker"), "segment-logged-before-wal-append"), cw.Pos(), len(ws)+len(as)+1, "a rotated-to segment is in the manifest before the batch's WAL records", "the manifest learns a new value-log segment only in updateHead, after writeToLSM appended (and possibly flushed) WAL records that point into it: a crash in between leaves durable pointers into a segment that reconcileManifest deletes on reopen (key present, value unreadable)")
 }
 
 // segmentIDAllocatorGroup: WAL segment ids and memtable/SST ids share one id space.
